@@ -36,10 +36,10 @@ Proof. exact cfv_parse_value. Qed.
    recursive well-formedness predicate: every tag valid, every wire type the field's (or packed), every length
    inside its enclosing buffer, every nested message / map entry / Timestamp well formed, input fully consumed. *)
 Theorem C05_accepts_exactly_wellformed : forall s progs idx data t0,
-  gen_all s = GOk progs -> tdec_applies s = true -> bytes_ok data ->
+  gen_all s = GOk progs -> tdec_applies_at s idx = true -> bytes_ok data ->
   (fst (pico_unmarshal progs idx data t0) = None <-> ref_decode (S (S (S (length data)))) s idx data t0 <> None).
 Proof.
-  intros s progs idx data t0 Hg Ha Hb. pose proof (T_dec_b s progs idx data t0 Hg Ha Hb) as H. cbv zeta in H.
+  intros s progs idx data t0 Hg Ha Hb. pose proof (T_dec_at s progs idx data t0 Hg Ha Hb) as H. cbv zeta in H.
   destruct (ref_decode (S (S (S (length data)))) s idx data t0) as [t''|].
   - split; [discriminate|intros _; exact (proj1 H)].
   - split; [intros E; contradiction|intros E; exfalso; apply E; reflexivity].
